@@ -47,7 +47,10 @@ def _layout(groups, rounds, ordinal_last=False):
                 vals.append(f'{OM}[{w}]')
             elif ch == 'H':
                 toks.append('H')
-                vals = [f'{RM}[H] * ({" + ".join(vals)})']
+                # a bare hundred word ("mille cent", French / German / Dutch / Italian) counts once
+                vals = [f'{RM}[H] * ({" + ".join(vals)})'] if vals else [f'{RM}[H]']
+            elif ch == '1':
+                vals = ['1']          # no count word before the round word ("mille deux cents"): the round word counts once
             elif ch == 'a':
                 toks.append('"and"')
         g = '(' + ' + '.join(vals) + ')' if vals else '0'
@@ -88,6 +91,11 @@ for _k in (1, 2, 3, 4):
 # ordinal endings after round words: "two million and first", "three thousand two hundred and twenty first"
 for _gs, _last in ((['c'], 'ao'), (['c'], 'cHaco'), (['cHacc', 'c'], 'co'), (['c', 'c', 'c'], 'o')):
     CONTRACTS.append(_mk('rounds%d.ordinal.%s.%s' % (len(_gs), '.'.join(_gs), _last), _gs + [_last]))
+# round words without a count word before them: French "mille deux cents" (1200), "mille cent" (1100), "deux mille cent" (2100),
+# German "tausendzweihundert", Dutch "duizend tweehonderd", Italian "mille duecento"
+for _name, _gs in (('bare.R.c', ['1', 'c']), ('bare.R.cH', ['1', 'cH']), ('bare.R.cHc', ['1', 'cHc']), ('bare.R.H', ['1', 'H']),
+                   ('c.R.H', ['c', 'H']), ('c.R.Hc', ['c', 'Hc']), ('bare.R.c.R.c', ['1', 'c', 'c'])):
+    CONTRACTS.append(_mk(_name, _gs, note='a round word with no count word before it counts once'))
 
 
 def spelling_enumeration(tier, seed):
